@@ -54,3 +54,197 @@ pub(crate) fn probe(site: &'static str) {
 pub fn take_probes() -> std::collections::BTreeMap<&'static str, u64> {
     PROBES.with(|p| std::mem::take(&mut *p.borrow_mut()))
 }
+
+/// Adapter that lets an external ordered-map backend be driven by the crate's own (private)
+/// reconciliation routine, and direct access to the storage primitives of a real replica.
+pub mod ranger_ext {
+    use crate::{
+        ranger::{Fingerprint, Range, Store},
+        sync::{ProtocolMessage, Record, RecordIdentifier, Replica, ReplicaInfo, SignedEntry},
+        ContentStatus,
+    };
+
+    /// Storage primitives an external backend has to provide. Ranges are given by their two
+    /// bounds `(x, y)` with the semantics documented on the reconciliation ranges: `x == y` is
+    /// the whole set, `x < y` is `[x, y)`, `x > y` wraps around.
+    pub trait Backend {
+        fn get_first(&mut self) -> RecordIdentifier;
+        fn get_range(&mut self, x: &RecordIdentifier, y: &RecordIdentifier) -> Vec<SignedEntry>;
+        fn get_fingerprint(&mut self, x: &RecordIdentifier, y: &RecordIdentifier) -> [u8; 32];
+        fn entry_put(&mut self, entry: SignedEntry);
+        fn prefixes_of(&mut self, key: &RecordIdentifier) -> Vec<SignedEntry>;
+        fn remove_prefix_filtered(
+            &mut self,
+            prefix: &RecordIdentifier,
+            predicate: &dyn Fn(&Record) -> bool,
+        ) -> usize;
+    }
+
+    struct Adapter<'a, B>(&'a mut B);
+
+    impl<B: Backend> Store<SignedEntry> for Adapter<'_, B> {
+        type Error = anyhow::Error;
+        type RangeIterator<'x>
+            = std::vec::IntoIter<Result<SignedEntry, anyhow::Error>>
+        where
+            Self: 'x;
+        type ParentIterator<'x>
+            = std::vec::IntoIter<Result<SignedEntry, anyhow::Error>>
+        where
+            Self: 'x;
+
+        fn get_first(&mut self) -> Result<RecordIdentifier, Self::Error> {
+            Ok(self.0.get_first())
+        }
+        fn get_fingerprint(
+            &mut self,
+            range: &Range<RecordIdentifier>,
+        ) -> Result<Fingerprint, Self::Error> {
+            Ok(Fingerprint(self.0.get_fingerprint(range.x(), range.y())))
+        }
+        fn entry_put(&mut self, entry: SignedEntry) -> Result<(), Self::Error> {
+            self.0.entry_put(entry);
+            Ok(())
+        }
+        fn get_range(
+            &mut self,
+            range: Range<RecordIdentifier>,
+        ) -> Result<Self::RangeIterator<'_>, Self::Error> {
+            let items: Vec<_> = self.0.get_range(range.x(), range.y());
+            Ok(items.into_iter().map(Ok).collect::<Vec<_>>().into_iter())
+        }
+        fn prefixes_of(
+            &mut self,
+            key: &RecordIdentifier,
+        ) -> Result<Self::ParentIterator<'_>, Self::Error> {
+            let items: Vec<_> = self.0.prefixes_of(key);
+            Ok(items.into_iter().map(Ok).collect::<Vec<_>>().into_iter())
+        }
+        fn remove_prefix_filtered(
+            &mut self,
+            prefix: &RecordIdentifier,
+            predicate: impl Fn(&Record) -> bool,
+        ) -> Result<usize, Self::Error> {
+            Ok(self.0.remove_prefix_filtered(prefix, &predicate))
+        }
+        #[cfg(test)]
+        fn get(&mut self, _key: &RecordIdentifier) -> Result<Option<SignedEntry>, Self::Error> {
+            unimplemented!()
+        }
+        #[cfg(test)]
+        fn len(&mut self) -> Result<usize, Self::Error> {
+            unimplemented!()
+        }
+        #[cfg(test)]
+        fn is_empty(&mut self) -> Result<bool, Self::Error> {
+            unimplemented!()
+        }
+        #[cfg(test)]
+        fn prefixed_by(
+            &mut self,
+            _prefix: &RecordIdentifier,
+        ) -> Result<Self::RangeIterator<'_>, Self::Error> {
+            unimplemented!()
+        }
+        #[cfg(test)]
+        fn all(&mut self) -> Result<Self::RangeIterator<'_>, Self::Error> {
+            unimplemented!()
+        }
+        #[cfg(test)]
+        fn entry_remove(
+            &mut self,
+            _key: &RecordIdentifier,
+        ) -> Result<Option<SignedEntry>, Self::Error> {
+            unimplemented!()
+        }
+    }
+
+    /// The initial reconciliation message over an external backend.
+    pub fn initial_message<B: Backend>(backend: &mut B) -> anyhow::Result<ProtocolMessage> {
+        Adapter(backend).initial_message()
+    }
+
+    /// Process a reconciliation message over an external backend with the crate's own routine
+    /// (all entries are accepted as valid; content status is always `Missing`).
+    ///
+    /// Returns the reply and the number of entries that were inserted.
+    pub async fn process_message<B: Backend>(
+        backend: &mut B,
+        message: ProtocolMessage,
+    ) -> anyhow::Result<(Option<ProtocolMessage>, usize)> {
+        let mut inserted = 0usize;
+        let reply = Adapter(backend)
+            .process_message(
+                &Default::default(),
+                message,
+                |_store, _entry, _status| true,
+                async |_store, _entry, _status| {
+                    inserted += 1;
+                },
+                async |_entry| ContentStatus::Missing,
+            )
+            .await?;
+        Ok((reply, inserted))
+    }
+
+    /// Insert with newest-wins and prefix pruning over an external backend (the crate's `put`).
+    ///
+    /// Returns `Some(removed)` if the entry was inserted, `None` otherwise.
+    pub fn put<B: Backend>(backend: &mut B, entry: SignedEntry) -> anyhow::Result<Option<usize>> {
+        Ok(match Adapter(backend).put(entry)? {
+            crate::ranger::InsertOutcome::Inserted { removed } => Some(removed),
+            crate::ranger::InsertOutcome::NotInserted => None,
+        })
+    }
+
+    /// Storage primitives of a real replica, for differential checks.
+    pub fn replica_get_first<I>(replica: &mut Replica<'_, I>) -> anyhow::Result<RecordIdentifier>
+    where
+        I: std::ops::Deref<Target = ReplicaInfo> + std::ops::DerefMut,
+    {
+        replica.store.get_first()
+    }
+
+    pub fn replica_get_range<I>(
+        replica: &mut Replica<'_, I>,
+        x: RecordIdentifier,
+        y: RecordIdentifier,
+    ) -> anyhow::Result<Vec<SignedEntry>>
+    where
+        I: std::ops::Deref<Target = ReplicaInfo> + std::ops::DerefMut,
+    {
+        replica.store.get_range(Range::new(x, y))?.collect()
+    }
+
+    pub fn replica_get_fingerprint<I>(
+        replica: &mut Replica<'_, I>,
+        x: RecordIdentifier,
+        y: RecordIdentifier,
+    ) -> anyhow::Result<[u8; 32]>
+    where
+        I: std::ops::Deref<Target = ReplicaInfo> + std::ops::DerefMut,
+    {
+        Ok(replica.store.get_fingerprint(&Range::new(x, y))?.0)
+    }
+
+    pub fn replica_prefixes_of<I>(
+        replica: &mut Replica<'_, I>,
+        key: &RecordIdentifier,
+    ) -> anyhow::Result<Vec<SignedEntry>>
+    where
+        I: std::ops::Deref<Target = ReplicaInfo> + std::ops::DerefMut,
+    {
+        replica.store.prefixes_of(key)?.collect()
+    }
+
+    pub fn replica_remove_prefix_filtered<I>(
+        replica: &mut Replica<'_, I>,
+        prefix: &RecordIdentifier,
+        predicate: impl Fn(&Record) -> bool,
+    ) -> anyhow::Result<usize>
+    where
+        I: std::ops::Deref<Target = ReplicaInfo> + std::ops::DerefMut,
+    {
+        replica.store.remove_prefix_filtered(prefix, predicate)
+    }
+}
